@@ -110,9 +110,12 @@ def run_unit(unit, repo, rlimit=30, seed=None, extra=None, tag=''):
             ob = Obl(unit, fi.qname, label or ('%s#%d' % (kind, k)), kind, text, fi.props)
             ob.lines = (lo, hi)
             obs.append(ob)
-        body = Obl(unit, fi.qname, 'body', 'body',
-                   'no panic: every index, slice, arithmetic operation, cast, unwrap and callee precondition in the body',
-                   fi.props)
+        if getattr(fi, 'is_lemma', False):
+            body = Obl(unit, fi.qname, 'proof', 'body', 'lemma: ' + getattr(fi, 'statement', '')[:400], fi.props)
+        else:
+            body = Obl(unit, fi.qname, 'body', 'body',
+                       'no panic: every index, slice, arithmetic operation, cast, unwrap and callee precondition in the body',
+                       fi.props)
         body.lines = (fi.gen_lo, fi.gen_hi)
         obs.append(body)
         by_fn[id(fi)] = obs
@@ -248,7 +251,7 @@ def cheat_census(unit, repo):
     """`verus --no-cheating` lists every assume / admit / external_body / assume_specification."""
     g = generate(unit, repo)
     os.makedirs(os.path.join(CACHE, 'gen'), exist_ok=True)
-    path = os.path.join(CACHE, 'gen', '%s.census.rs' % unit)
+    path = os.path.join(CACHE, 'gen', '%s_census.rs' % unit)
     with open(path, 'w') as f:
         f.write(g.text())
     p = subprocess.run(['verus', path, '--no-cheating', '--error-format=json', '--no-verify'],
